@@ -280,7 +280,7 @@ func runC09(rc *runCtx) error {
 				} else if err != nil {
 					r.term = "(C09Crash 1)"
 				}
-				r.errText = tail(stderr.String(), 1200)
+				r.errText = fmt.Sprintf("run idx=%d cfg=%d: %v: %s", jobs[i].idx, jobs[i].cfg, err, tail(stderr.String(), 1500))
 			}
 			results[i] = r
 		}(i)
